@@ -71,3 +71,43 @@ def has_near_ties(mn, nonsample, rel=1e-9):
     if v.size < 2:
         return False
     return bool(np.any(np.diff(v) <= rel * np.maximum(np.abs(v[1:]), 1e-300)))
+
+
+class ChangepointTieProbe:
+    """Observes the real rescaling step (module-level name variational.mutational_timescale) and reports whether
+    some cumulative mutational-area fraction falls within 1e-9 of a requested quantile k/intervals: there the
+    choice of changepoint is decided by rounding (cf. C26's boundary rule), so any inexact rescaling of units or
+    coordinates may legitimately move a breakpoint."""
+
+    def __init__(self):
+        self.tie = False
+        self.calls = 0
+
+    def __enter__(self):
+        from tsdate import rescaling as R
+        from tsdate import variational as V
+
+        self._V, self._real = V, V.mutational_timescale
+
+        def spy(nodes_time, likelihoods, nodes_fixed, edges_parent, edges_child, max_intervals):
+            self.calls += 1
+            try:
+                c, o, d, idx = R.mutational_area(nodes_time, likelihoods, edges_parent, edges_child)
+                w = np.asarray(o) * np.asarray(d)
+                if w.sum() > 0 and max_intervals > 1:
+                    Z = np.append(0.0, np.cumsum(w)) / w.sum()
+                    q = np.arange(1, int(min(max_intervals, 10**6))) / max_intervals
+                    if q.size and Z.size:
+                        j = np.searchsorted(q, Z)
+                        near = np.minimum(np.abs(Z - q[np.clip(j, 0, q.size - 1)]), np.abs(Z - q[np.clip(j - 1, 0, q.size - 1)]))
+                        if np.any(near[1:-1] <= 1e-9):
+                            self.tie = True
+            except Exception:  # noqa: BLE001
+                pass
+            return self._real(nodes_time, likelihoods, nodes_fixed, edges_parent, edges_child, max_intervals)
+
+        V.mutational_timescale = spy
+        return self
+
+    def __exit__(self, *a):
+        self._V.mutational_timescale = self._real
